@@ -9,10 +9,13 @@
 //
 //   d <r|s> <hex stream>
 //     -> events separated by spaces:
-//        M:<start>:<headEnd>:<end>:<kind>:cl=<n|->:ncl=<count of Content-Length entries>:te=<0|1>:v=<maj>.<min>:m=<method hex>:u=<target hex>:ck=<Adler-32 of the body>
+//        M:<start>:<headEnd>:<end>:<kind>:cl=<n|->:ncl=<count of Content-Length entries>:te=<0|1>:v=<maj>.<min>:m=<method hex>:u=<target hex>:p=<0|1>:ck=<Adler-32 of the body>
 //             kind = none | cl | ch<decoded length>       (a request that clientProcessRequest hands to doCallouts())
+//             p = request->flags.proxyKeepalive as clientSetKeepaliveFlag() (text-extracted from the staged client_side.cc) sets it
 //        and one final event
 //        end                  the buffer is empty
+//        closing:<end>        the last message was not persistent: with pipeline_prefetch 0 the next request is not parsed before the
+//                             response is written, and then the connection is closed
 //        more:<start>         the request parser needs more data for the message that starts at <start>
 //        body:<start>:<headEnd>:<kind>   the head was accepted, its body is incomplete (Squid keeps reading body bytes)
 //        rej:<start>:<status>:<where>   error reply + quitAfterError (readMore = false); where = parse|method|url|version|header|
@@ -61,6 +64,13 @@ static std::string hex(const char *p, size_t n) {
     for (size_t i = 0; i < n; ++i) { const unsigned char c = p[i]; r.push_back(d[c >> 4]); r.push_back(d[c & 15]); }
     return r;
 }
+
+// ConnStateData's clientSetKeepaliveFlag(ClientHttpRequest *) is a file-static-like helper of client_side.cc (which cannot be
+// linked here); its body is cut out of the staged source by props/C03.py and compiled against this stand-in
+struct FakeClientHttpRequest { HttpRequest *request; };
+#define ClientHttpRequest FakeClientHttpRequest
+#include "c03_keepalive.inc"
+#undef ClientHttpRequest
 
 static unsigned adler(const char *p, size_t n) {
     unsigned a = 1, b = 0;
@@ -128,6 +138,10 @@ static std::string delimit(const bool relaxed, const std::string &stream) {
         if (frameStatus != Http::scNone) { sep(); out << "rej:" << start << ':' << static_cast<int>(frameStatus) << ":framing"; break; }
         if (request->method == Http::METHOD_CONNECT) { sep(); out << "connect:" << start << ':' << headEnd; break; }
 
+        FakeClientHttpRequest fakeHttp{request.getRaw()};
+        clientSetKeepaliveFlag(&fakeHttp);
+        const bool persistent = request->flags.proxyKeepalive;
+
         const auto chunked = request->header.chunked();
         const bool expectBody = chunked || request->content_length > 0;
         std::string kind = "none";
@@ -177,10 +191,12 @@ static std::string delimit(const bool relaxed, const std::string &stream) {
              << ":v=" << ver.major << '.' << ver.minor
              << ":m=" << hex(hp->method().image().rawContent(), hp->method().image().length())
              << ":u=" << hex(hp->requestUri().rawContent(), hp->requestUri().length())
+             << ":p=" << (persistent ? 1 : 0)
              << ":ck=" << ck;
         if (incomplete) { sep(); out << "body:" << start << ':' << headEnd << ':' << desc.str(); break; }
         const size_t end = total - inBuf.length();
         sep(); out << "M:" << start << ':' << headEnd << ':' << end << ':' << desc.str();
+        if (!persistent) { sep(); out << "closing:" << end; break; }
     }
     return out.str();
 }
